@@ -162,6 +162,10 @@ def plan_run(rng, kind):
         case['nres_supplied'] = rng.randint(1, max(1, nres_total - 1))
         case['fail'] = {'first_attempts': rng.randint(1, 3)}
         case['resolution'] = rng.choice(['mol', 'meta_mol'])
+        # sometimes more failed attempts than the attempt limit: the molecule is given up once and started over
+        if rng.random() < 0.5:
+            case['maxiter'] = rng.choice([1, 2])
+            case['fail'] = {'first_attempts': case['maxiter'] + rng.randint(1, 2)}
     return case
 
 
@@ -222,7 +226,7 @@ def run_case(case, timeout=90):
         if case['ignore']:
             kw['ignore'] = list(case['ignore'])
         res = systems.run_gen_coords(wd, systems.top_text(case['moltypes'], case['molecules']), seed=case['seed'], timeout=timeout,
-                                     maxiter=200, hooks=hooks, **kw)
+                                     maxiter=case.get('maxiter', 200), hooks=hooks, **kw)
     res['attempts'] = seen['attempts']
     return res, rows, plan
 
